@@ -21,7 +21,7 @@ pub enum Case {
     /// inserted content == one-shot encode (numeric references for unmappable characters)
     Insert { enc: &'static Encoding, input: Vec<u8>, cuts: Vec<usize>, strings: Vec<(String, CT)> },
     /// <meta charset> switches the encoding once, after the tag
-    Switch { from: &'static Encoding, to_label: String, part1: String, part2: String, late_meta: Option<String>, cuts_frac: Vec<u16>, insert: String, handlers: u8 },
+    Switch { from: &'static Encoding, to_label: String, part1: String, part2: String, late_meta: Option<String>, cuts_frac: Vec<u16>, insert: String, handlers: u8, http_equiv: bool },
 }
 
 fn mb_run(t: &mut Tape<'_>, enc: &'static Encoding, target_bytes: usize) -> Vec<u8> {
@@ -122,7 +122,7 @@ pub fn decode(tape: &[u16]) -> Case {
             let late_meta = if t.chance(1, 3) { Some(ENCODINGS[t.below(ENCODINGS.len())].name().to_string()) } else { None };
             let k = t.range(0, 4);
             let cuts_frac = (0..k).map(|_| t.frac()).collect();
-            Case::Switch { from: enc, to_label, part1, part2, late_meta, cuts_frac, insert: t.pick(INSERT_STRS).to_string(), handlers: t.below(8) as u8 }
+            Case::Switch { from: enc, to_label, part1, part2, late_meta, cuts_frac, insert: t.pick(INSERT_STRS).to_string(), handlers: t.below(8) as u8, http_equiv: t.chance(1, 3) }
         }
     }
 }
@@ -258,14 +258,15 @@ fn mappable(enc: &'static Encoding, s: &str) -> String {
 }
 
 #[allow(clippy::too_many_arguments)]
-fn check_switch(from: &'static Encoding, to_label: &str, part1: &str, part2: &str, late_meta: &Option<String>, cuts_frac: &[u16], insert: &str, handlers: u8, st: &mut Stats) -> PResult {
+fn check_switch(from: &'static Encoding, to_label: &str, part1: &str, part2: &str, late_meta: &Option<String>, cuts_frac: &[u16], insert: &str, handlers: u8, http_equiv: bool, st: &mut Stats) -> PResult {
     let resolve = |l: &str| -> Option<&'static Encoding> { Encoding::for_label_no_replacement(l.as_bytes()).filter(|e| e.is_ascii_compatible()) };
     let first = resolve(to_label);
     let eff1 = first.unwrap_or(from);
     let p1 = mappable(from, part1);
     let p2 = mappable(eff1, part2);
     let mut input = from.encode(&p1).0.into_owned();
-    let meta = format!("<meta charset=\"{to_label}\">");
+    // both declaration syntaxes (the http-equiv one goes through a different label parser)
+    let meta = if http_equiv { format!("<meta http-equiv=\"Content-Type\" content=\"text/html; charset={to_label}\">") } else { format!("<meta charset=\"{to_label}\">") };
     input.extend_from_slice(meta.as_bytes());
     let meta1_end = input.len();
     input.extend(eff1.encode(&p2).0.iter());
@@ -353,6 +354,7 @@ fn check_switch(from: &'static Encoding, to_label: &str, part1: &str, part2: &st
     let tail = eff.encode(insert).0.into_owned();
     ensure!(r.out.ends_with(&tail), "C13: document-end content inserted after the charset switch is not encoded in {}: want suffix {:?}, output ends {:?}", eff.name(), show(&tail), show(&r.out[r.out.len().saturating_sub(tail.len() + 4)..]));
     st.label_if(switched, "charset_switch");
+    st.label_if(http_equiv, "http_equiv_declaration");
     st.label_if(switched, &format!("switch_with_{hname}"));
     st.label_if(to.is_none(), "unsupported_or_non_ascii_compatible_label");
     st.label_if(late_meta.is_some(), "second_meta_ignored");
@@ -394,7 +396,7 @@ impl Prop for C13 {
         }]
     }
     fn rule(&self) -> String {
-        "case over 36 encodings, three kinds. decode (2/3 with every observer registered, 1/3 with a generated sparse observer set whose text handlers are scoped to elements): soup in the encoding (incl. characters with ASCII trail bytes), optional 1000-3100-byte multi-byte text run, optional injected malformed bytes, schedule; every text node (chunks concatenated), comment text, tag name, attribute name and value read by handlers == encoding_rs ONE-SHOT decode of the bytes at the reported range. insert: document-end/element insertions of strings with mappable and unmappable characters in both content types == one-shot encode (numeric references), streaming insertion in two pieces == single insertion. switch: text in encoding A + <meta charset=B> + text in B (+ optional later meta), under five handler sets (all observers; document-end handler only; a `p` element+text handler; a `meta` element handler only; a `b[title]` text handler only - the parser may or may not stay in lexer mode after the tag; and a `meta` handler that strips or rewrites the charset attribute - the declaration in the input still decides): exactly one set_encoding(B) delivered right after the declaring tag's bytes, later strings decoded and later insertions encoded in B, none for unsupported / non-ASCII-compatible / identical labels. non-trivial = a cut inside a multi-byte character, a text node > 1024 bytes, an unmappable insertion or an actual switch".into()
+        "case over 36 encodings, three kinds. decode (2/3 with every observer registered, 1/3 with a generated sparse observer set whose text handlers are scoped to elements): soup in the encoding (incl. characters with ASCII trail bytes), optional 1000-3100-byte multi-byte text run, optional injected malformed bytes, schedule; every text node (chunks concatenated), comment text, tag name, attribute name and value read by handlers == encoding_rs ONE-SHOT decode of the bytes at the reported range. insert: document-end/element insertions of strings with mappable and unmappable characters in both content types == one-shot encode (numeric references), streaming insertion in two pieces == single insertion. switch: text in encoding A + <meta charset=B> (or the http-equiv=Content-Type syntax) + text in B (+ optional later meta), under five handler sets (all observers; document-end handler only; a `p` element+text handler; a `meta` element handler only; a `b[title]` text handler only - the parser may or may not stay in lexer mode after the tag; and a `meta` handler that strips or rewrites the charset attribute - the declaration in the input still decides): exactly one set_encoding(B) delivered right after the declaring tag's bytes, later strings decoded and later insertions encoded in B, none for unsupported / non-ASCII-compatible / identical labels. non-trivial = a cut inside a multi-byte character, a text node > 1024 bytes, an unmappable insertion or an actual switch".into()
     }
     fn assumptions(&self) -> Vec<String> {
         vec!["encoding_rs one-shot decode_without_bom_handling / encode are the codec oracle (the implementation uses the streaming API in 1 KiB pieces)".into()]
@@ -409,14 +411,14 @@ impl Prop for C13 {
         match decode(tape) {
             Case::Decode { enc, input, cuts, sparse } => check_decode(enc, &input, &cuts, sparse.as_ref(), st),
             Case::Insert { enc, input, cuts, strings } => check_insert(enc, &input, &cuts, &strings, st),
-            Case::Switch { from, to_label, part1, part2, late_meta, cuts_frac, insert, handlers } => check_switch(from, &to_label, &part1, &part2, &late_meta, &cuts_frac, &insert, handlers, st),
+            Case::Switch { from, to_label, part1, part2, late_meta, cuts_frac, insert, handlers, http_equiv } => check_switch(from, &to_label, &part1, &part2, &late_meta, &cuts_frac, &insert, handlers, http_equiv, st),
         }
     }
     fn describe(&self, tape: &[u16]) -> Value {
         match decode(tape) {
             Case::Decode { enc, input, cuts, sparse } => json!({"kind": "decode", "encoding": enc.name(), "input": show(&input[..input.len().min(300)]), "input_bytes": input, "cuts": cuts, "sparse_handlers": sparse.map(|c| c.to_json())}),
             Case::Insert { enc, input, cuts, strings } => json!({"kind": "insert", "encoding": enc.name(), "input": show(&input), "cuts": cuts, "strings": format!("{strings:?}")}),
-            Case::Switch { from, to_label, part1, part2, late_meta, cuts_frac, insert, handlers } => json!({"kind": "switch", "from": from.name(), "to": to_label, "part1": part1, "part2": part2, "late_meta": late_meta, "cuts_frac": cuts_frac, "insert": insert, "handlers": handlers}),
+            Case::Switch { from, to_label, part1, part2, late_meta, cuts_frac, insert, handlers, http_equiv } => json!({"kind": "switch", "http_equiv_syntax": http_equiv, "from": from.name(), "to": to_label, "part1": part1, "part2": part2, "late_meta": late_meta, "cuts_frac": cuts_frac, "insert": insert, "handlers": handlers}),
         }
     }
 }
